@@ -106,3 +106,31 @@ claim(
     'The safe-name sets are recomputed from the installed bs4 on every run.',
     'import-time reachability over a type-resolved call graph + bs4 import-chain analysis',
 )
+
+claim(
+    'C14',
+    'Decided by a confinement analysis (sufficient under the trusted base that functools.lru_cache and compiled '
+    're.Pattern objects are thread-safe): the objects retained by module- or class-level bindings (the token matcher '
+    'table, constants) are never written by any method other than __init__; no function rebinds a global, stores '
+    'into or calls a mutator on a module-/class-level object, or has a mutable default; CSSParser, CSSMatch, '
+    '_Selector and _FakeParent objects are constructed per call and never published; every memoised function returns '
+    'an immutable value and reads no variable module state. This covers all schedules at once because it shows the '
+    'absence of shared writes; no interleaving is sampled.',
+    'Immutability of the css_types value classes is C15.',
+    'shared-state confinement / escape analysis over the AST and class hierarchy',
+)
+
+claim(
+    'C20',
+    'Decided: (R1, sufficient for termination) both index-driven scanner loops - the selector tokenizer and the debug '
+    'pretty-printer - advance the index by a non-empty match or a positive constant on every path back to the loop '
+    'head, or leave; (R2) the pretty-printer has an emitting branch for every token kind; (R3) every '
+    'SelectorSyntaxError raised inside CSSParser has the three-argument form with self.pattern and the very position '
+    'expression its message names; (R4) every statement control-dependent on the debug flag is a plain print; (R5) '
+    'the error constructor derives line/column/context whenever pattern and index are not None (not merely truthy). '
+    'Not decided: the line/column arithmetic of get_pattern_context (incl. the known end-of-pattern defect) and '
+    'equality of pretty() output with repr.',
+    'The offset-to-(line, column) computation quantifies over run-time offsets; no structural clause of it was found '
+    'that is a necessary condition without being a frozen fragment.',
+    'scanner-loop path rule over a structural path walker + raise-site agreement + debug effect rule',
+)
